@@ -296,13 +296,13 @@ EXT_WORDS = ["play_sound", "get_time", "roll_dice", "log_event", "get_score", "h
 TUNNEL_WORDS = ["rest", "inspect", "trade", "pray", "nap"]
 THREAD_WORDS = ["whispers", "crowd", "weather", "radio"]
 LABEL_WORDS = ["opt", "seen", "mark", "spot", "pt"]
-PARAM_WORDS = ["a", "b", "c", "n", "m", "v", "w"]
-WORDS = ["the", "lantern", "flickers", "you", "walk", "slowly", "rain", "falls", "a", "door", "creaks", "wind",
+PARAM_WORDS = ["p", "q", "k", "n", "m", "v", "w"]
+WORDS = ["the", "lantern", "flickers", "you", "walk", "slowly", "rain", "falls", "a", "hinge", "creaks", "wind",
          "rises", "someone", "laughs", "far", "away", "light", "fades", "stone", "is", "cold", "water", "drips",
          "old", "map", "shows", "nothing", "here", "again", "quiet", "now", "birds", "sing", "dust", "settles",
          "it", "feels", "strange", "voices", "echo", "night", "comes"]
 STR_LITS = ["abc", "north", "south", "x", "fine", "", "two words", "Z9"]
-TAG_WORDS = ["mood", "sfx", "bg", "cam", "tone", "beat", "audio", "scene"]
+TAG_WORDS = ["vibe", "sfx", "bg", "cam", "tone", "beat", "audio", "scene"]
 
 # hostile pieces: allowed anywhere in plain text lines
 HOSTILE_TEXT = ['"quoted"', 'say "hi" now', "\\\\", "back\\\\slash", "tab\there", "\t", "é", "café",
@@ -621,7 +621,7 @@ class Gen:
         if k == "lit":
             return self.pick(["true", "false"])
         if k == "visited":
-            v = self.pick(ctx.scope.visited_names + ctx.labels)
+            v = self.pick(ctx.scope.visited_names + ctx.labels + ctx.scope.labels)   # knot, knot.stitch, label, knot.label
             return self.pick([v, v + " > 0", "not " + v, v + " == 0"])
         if k == "list":
             return self.list_bool(ctx)
@@ -1346,6 +1346,12 @@ class Gen:
                 ctx.bools.append(tn)
                 ctx.wbools.append(tn)
         body.append(self.text(ctx))
+        if self.f["observers"] and index == 0 and scope.tunnels:
+            body.append(TunnelCall(scope.tunnels[0]))
+            fns = [fn for fn in scope.fns if not fn.pure]
+            if fns:
+                c = self.call(fns[0], ctx, 1)
+                body.append(Tilde(c) if "=" not in c else Text(["Then", "{" + c + "}"]))
         body += self.stmts(ctx, 0, 1 + self.size // 4)
         n_groups = self.wpick([(2.5, 0), (6, 1), (0.4 if self.size >= 3 else 0, 2)])
         for _ in range(n_groups):
@@ -1474,6 +1480,8 @@ class Gen:
             for i in range(n_fns):
                 kinds.append(self.wpick([(4, "value"), (3, "print"), (2 if not f["fn_heavy"] else 3, "impure"),
                                          (0.7, "recursive")]))
+            if f["observers"]:
+                kinds = ["impure"] + kinds
             if f["fn_heavy"]:
                 kinds[:4] = ["value", "print", "impure", "recursive"][:len(kinds[:4])] if len(kinds) >= 4 else kinds
             for k in kinds:
@@ -1492,6 +1500,7 @@ class Gen:
                 break
             tunnel_knots = [k for k in tunnel_knots if k not in unused]
         self.prog.knots = fn_knots_before + main + tunnel_knots + fn_knots + fb_knots
+        scope.members = [k.name for k in main + tunnel_knots + fn_knots + fb_knots]
         return main
 
     def build(self):
@@ -1521,6 +1530,8 @@ class Gen:
         if f["externals"] or f["lists"]:
             n_fns = min(n_fns, 1)
         n_tunnels = self.rng.randrange(0, 2 + size // 3)
+        if f["observers"]:
+            n_tunnels = max(1, n_tunnels)
         if f["fn_heavy"] or f["lists"]:
             n_knots = max(2, n_knots - 1)
         main = self.build_flow(scope, n_knots, n_fns, n_tunnels)
@@ -1553,6 +1564,10 @@ class Gen:
             "externals": [{"name": fn.name, "arity": len(fn.ptypes), "has_fallback": fn.has_fallback}
                           for fn in self.all_exts],
             "flows": list(self.flow_entries),
+            # for each flow entry: every knot / function and every global that flow may touch
+            "flow_members": {sc.nodes[0]: {"knots": list(sc.members),
+                                           "globals": sc.ints + sc.bools + sc.strs + [sc.loops]}
+                             for sc in self.scopes} if self.flow_entries else {},
             "lists": {k: dict(v) for k, v in self.lists.items()},
             "faults": list(self.faults),
         }
